@@ -17,6 +17,7 @@ import (
 	"os/signal"
 	"strings"
 	"sync"
+	"sync/atomic"
 	"syscall"
 	"testing"
 	"testing/synctest"
@@ -407,12 +408,15 @@ func runTermMon(c *Case, r *Run, groups []string) {
 	var mu sync.Mutex
 	consumed := make([][]byte, len(groups)) // per group: signals that were received by the monitor
 	var wg sync.WaitGroup
+	var sReturned, fCalled atomic.Int64
 	send := func(gi int, ev byte) {
 		defer wg.Done()
 		switch ev {
 		case 'S':
 			m.onHandlerStart() // may block for as long as nobody is in wait()
+			sReturned.Add(1)   // from here on the handler is relaying
 		case 'F':
+			fCalled.Add(1) // the handler is done, whenever the monitor takes note
 			m.onHandlerFinish()
 		case 'I', 'T':
 			var s os.Signal = syscall.SIGINT
@@ -474,6 +478,11 @@ func runTermMon(c *Case, r *Run, groups []string) {
 		default:
 			c.Violation("termmon/returned-at-wrong-point/"+cls, fmt.Sprintf("history %s: signals received %q, returned=%v is not explained by any order of the simultaneous events", hist, seq, returned), wit)
 		}
+	} else if returned && !strings.Contains(seq, "T") && strings.Count(seq, "I") == 1 && sReturned.Load()-fCalled.Load() > 0 {
+		// main returned because "no handler is active" (one SIGINT received, no
+		// SIGTERM) while handlers whose onHandlerStart() had returned - they are
+		// relaying - have not finished: the shutdown completed underneath them
+		c.Violation("termmon/shutdown-completed-with-active-handlers/"+cls, fmt.Sprintf("history %s (signals received %q): the graceful shutdown completed although %d handler(s) had got past onHandlerStart() and %d had finished", hist, seq, sReturned.Load(), fCalled.Load()), wit)
 	} else if returned {
 		for _, w := range whys {
 			switch w {
